@@ -1,6 +1,7 @@
 //! @property C13
 //! @enc BytesSerializable::{to_bytes, from_bytes} of Identifier, PollingStrategy, Partitioning, PollMessages, StoreConsumerOffset, GetConsumerOffset, CreateStream, DeleteStream, CreateConsumerGroup, JoinConsumerGroup, CreatePartitions; PollingKind/ConsumerKind/IdKind/PartitioningKind code maps
 //! @bounds every scalar field symbolic (u32/u64/bool, all enum arms); identifiers of a concrete kind per harness (numeric with any u32 >= 1, or a 2-byte name with symbolic bytes; both kinds occur in every multi-identifier command); optional fields present/absent; names of length 2 with symbolic bytes (ASCII letters); partition ids >= 1 when present (0 is the wire encoding of "absent")
+//! @assume quick tier = the round trips that finish within the cap (named identifier, polling strategy incl. malformed frames, the three partitioning kinds, CreateStream/DeleteStream); the commands carrying several identifiers and numeric identifiers are thorough-tier only (CBMC runs out of memory on them in this setup)
 //! @out HTTP/JSON; SendMessages with user headers (hash-map iteration order); responses (mapper.rs) - not yet encoded; malformed frames only for Identifier/PollingStrategy/Partitioning (decoder must return Err or a value that re-encodes to the same bytes)
 use super::util::static_bytes;
 use bytes::Bytes;
@@ -78,7 +79,7 @@ fn identifier_roundtrip(named: bool) {
     assert!(y.unwrap() == x);
     kani::cover!(true, "reached");
 }
-harness! { #[kani::unwind(8)] fn c13_identifier_numeric_roundtrip() { identifier_roundtrip(false) } }
+harness! { #[kani::unwind(8)] fn c13_identifier_numeric_roundtrip_t() { identifier_roundtrip(false) } }
 harness! { #[kani::unwind(8)] fn c13_identifier_named_roundtrip() { identifier_roundtrip(true) } }
 
 harness! { #[kani::unwind(12)] fn c13_polling_strategy_roundtrip_and_malformed() {
@@ -104,7 +105,11 @@ fn partitioning_roundtrip(k: u8) {
             Partitioning::messages_key(&key).unwrap()
         }
     };
-    let y = Partitioning::from_bytes(wire(x.to_bytes())).unwrap();
+    // inside a SendMessages frame the partitioning is followed by the messages: the decoder is handed
+    // the rest of the frame (it rejects a slice shorter than 3 bytes), so one trailing byte is added
+    let mut frame = x.to_bytes().to_vec();
+    frame.push(0xAA);
+    let y = Partitioning::from_bytes(static_bytes(frame)).unwrap();
     assert!(y == x);
     kani::cover!(true, "reached");
 }
@@ -112,7 +117,7 @@ harness! { #[kani::unwind(8)] fn c13_partitioning_balanced_roundtrip() { partiti
 harness! { #[kani::unwind(8)] fn c13_partitioning_partition_id_roundtrip() { partitioning_roundtrip(1) } }
 harness! { #[kani::unwind(8)] fn c13_partitioning_key_roundtrip() { partitioning_roundtrip(2) } }
 
-harness! { #[kani::unwind(8)] fn c13_poll_messages_roundtrip() {
+harness! { #[kani::unwind(8)] fn c13_poll_messages_roundtrip_t() {
     let x = PollMessages {
         consumer: consumer(false),
         stream_id: ident(true),
@@ -128,7 +133,7 @@ harness! { #[kani::unwind(8)] fn c13_poll_messages_roundtrip() {
     kani::cover!(x.partition_id.is_none() && x.auto_commit, "no partition, auto commit");
 } }
 
-harness! { #[kani::unwind(8)] fn c13_store_consumer_offset_roundtrip() {
+harness! { #[kani::unwind(8)] fn c13_store_consumer_offset_roundtrip_t() {
     let x = StoreConsumerOffset {
         consumer: consumer(false),
         stream_id: ident(true),
@@ -142,7 +147,7 @@ harness! { #[kani::unwind(8)] fn c13_store_consumer_offset_roundtrip() {
     kani::cover!(x.consumer.kind == ConsumerKind::ConsumerGroup, "group");
 } }
 
-harness! { #[kani::unwind(8)] fn c13_get_consumer_offset_roundtrip() {
+harness! { #[kani::unwind(8)] fn c13_get_consumer_offset_roundtrip_t() {
     let x = GetConsumerOffset {
         consumer: consumer(false),
         stream_id: ident(true),
@@ -166,7 +171,7 @@ harness! { #[kani::unwind(8)] fn c13_stream_commands_roundtrip() {
     kani::cover!(x.stream_id.is_none(), "server-assigned id");
 } }
 
-harness! { #[kani::unwind(8)] fn c13_group_and_partition_commands_roundtrip() {
+harness! { #[kani::unwind(8)] fn c13_group_and_partition_commands_roundtrip_t() {
     let gid: Option<u32> = if kani::any() { let v: u32 = kani::any(); kani::assume(v >= 1); Some(v) } else { None };
     let x = CreateConsumerGroup { stream_id: ident(false), topic_id: ident(true), group_id: gid, name: any_name() };
     let y = CreateConsumerGroup::from_bytes(wire(x.to_bytes()));
